@@ -158,6 +158,15 @@ pub fn observe(case: &Value) -> Value {
             }
             out.insert("files".into(), Value::Array(fl));
         }
+        if has(case, "toks") {
+            let mut all = vec![];
+            for (k, (_, name)) in parser.reader.order.iter().enumerate() {
+                let t = files.get(name).cloned().unwrap_or_default();
+                let (toks, _) = lex_text(&t, k as i64 + 1);
+                all.push(Value::Array(toks));
+            }
+            out.insert("toks".into(), Value::Array(all));
+        }
         if has(case, "nodes") {
             out.insert(
                 "nodes".into(),
